@@ -61,6 +61,15 @@ def cases(tier, seed):
                     if ncell <= (4 if tier == "quick" else 6) and (tier == "quick" or max(occ) <= 3):
                         yield dict(cv="shuffle", layout=[nbx, nby], occ=occ, spec="shape")
     yield dict(cv="badX", layout=[2, 2], occ=[1, 1, 1, 1], spec="shape")
+    # fine, sparsely occupied block grids: few points in many blocks, block ids spread over a wide range (seed C11-8: a membership
+    # test that is only wrong once numpy takes its sorting path); the occupied cells follow two fixed arithmetic patterns
+    for nb, (a, b), ncells in ((40, (7, 11), 46), (25, (3, 8), 30), (60, (13, 7), 35)):
+        occ = [0] * (nb * nb)
+        for i in range(ncells):
+            occ[((b * i) % nb) * nb + (a * i) % nb] += 1 + i % 3
+        occ[0] = max(occ[0], 1); occ[-1] = max(occ[-1], 1)
+        for cvk in ("kfold", "shuffle"):
+            yield dict(cv=cvk, layout=[nb, nb], occ=occ, spec="shape", splits=[2, 3, 7])
 
 
 def _points(layout, occ):
@@ -93,6 +102,18 @@ def _check_split(rec, train, test, labels, n, what):
     bs = {labels[i] for i in ss}
     rec.check(not (bt & bs), "%s: block(s) %s contribute points to both sides (train %s / test %s)" % (what, sorted(bt & bs), sorted(st), sorted(ss)))
     return ss, bs
+
+
+def _ref_partition(pops, parts):
+    """Documented rule of verde.utils.partition_by_sum, in exact integer arithmetic: split points or None if it cannot partition."""
+    if parts > len(pops):
+        return None
+    cum = list(itertools.accumulate(pops))
+    ideal = cum[-1] // parts
+    idx = [sum(1 for c in cum if c <= k * ideal) for k in range(1, parts)]
+    if len(set(idx)) != len(idx) or 0 in idx:
+        return None
+    return idx
 
 
 def run(case, rec):
@@ -130,7 +151,7 @@ def run(case, rec):
                 rec.check(False, "X with 3 columns raised %r instead of ValueError" % (exc,))
         return
     if case["cv"] == "kfold":
-        for n_splits in range(2, nocc + 2):
+        for n_splits in case.get("splits") or range(2, nocc + 2):
             for shuffle in (False, True):
                 for balance in (True, False):
                     for sd in ((0, 1, 2, 3) if shuffle else (None,)):
@@ -175,6 +196,18 @@ def run(case, rec):
                             sizes.append(len(ss))
                             bcounts.append(len(bs))
                         rec.check(seen == set(range(npts)), what + ": test folds do not cover every sample exactly once")
+                        if balance and fellback:
+                            # the fall-back is only for layouts that cannot be balanced by the documented rule (cumulative block
+                            # populations cut where they cross multiples of total // parts, in the order of the blocks): ascending
+                            # block order without shuffling; with shuffling the order is the implementation's, so the fall-back is
+                            # held against the rule only when the rule succeeds for EVERY order (seed C11-7)
+                            pops = [pop[b] for b in sorted(pop)]
+                            if not shuffle:
+                                rec.check(_ref_partition(pops, n_splits) is None, what + ": fell back to equal block counts although the documented "
+                                          "balancing rule succeeds (split points %s for block populations %s)" % (_ref_partition(pops, n_splits), pops))
+                            elif len(pops) <= 6:
+                                rec.check(any(_ref_partition(list(pm), n_splits) is None for pm in set(itertools.permutations(pops))),
+                                          what + ": fell back although the balancing rule succeeds for every order of the block populations %s" % (pops,))
                         if balance and not fellback:
                             bmax = max(pop.values())
                             dev = max(abs(s - npts / n_splits) for s in sizes)
